@@ -315,8 +315,12 @@ def parse_hover_decl(text: str):
     for a in parts[1:]:
         a = norm(a)
         if a.startswith("dimension"):
+            if dim is not None:
+                attrs.add("dimension-given-twice")
             dim = a[len("dimension"):]
         elif a:
+            if a in attrs:
+                attrs.add(a + "-given-twice")
             attrs.add(a)
     return {"name": name.lower(), "type": tword, "selector": sel, "attrs": attrs, "dim": dim, "value": val}
 
@@ -441,7 +445,7 @@ def check(text, g: Gen):
 
 def run(tier: str, seed: int):
     n = nd = ns = 0
-    for k in range(150 if tier == "thorough" else 30):
+    for k in range(150 if tier == "thorough" else 60):
         g = Gen(random.Random(seed * 6007 + k))
         text = g.generate()
         n += 1
